@@ -578,14 +578,16 @@ def stepInit (ws : List String) : String :=
         | some a, some b => some (a, b)
         | _, _ => none)
       | _ => none))
-  match ws with
-  | [l, stops, uo, ro, fx, est, nt, nta, t, ta, tv] =>
-    match nats l, nats stops, pairs uo, pairs ro, nats fx, nats est, nats nt, pairs nta, nats t, pairs ta, nats tv with
-    | some l, some stops, some uo, some ro, some fx, some est, some nt, some nta, some t, some ta, some tv =>
+  let go (l stops uo ro fx est nt nta t ta tv oo : String) : String :=
+    match nats l, nats stops, pairs uo, pairs ro, nats fx, nats est, nats nt, pairs nta, nats t, pairs ta, nats tv, nats oo with
+    | some l, some stops, some uo, some ro, some fx, some est, some nt, some nta, some t, some ta, some tv, some oo =>
       let look (m : List (Nat × Nat)) (k : Nat) : Nat := ((m.find? (fun p => p.1 = k)).map (·.2)).getD k
-      Init.render { L := l, stops := stops, unitOf := look uo, rootOf := look ro, fixedStops := fx,
+      Init.render { L := l, stops := stops, unitOf := look uo, rootOf := look ro, fixedStops := fx, oneOf := oo,
                     sc := { est := est, nt := nt, ntAfter := nta, t := t, tAfter := ta, tVeh := tv } }
-    | _, _, _, _, _, _, _, _, _, _, _ => "bad-op"
+    | _, _, _, _, _, _, _, _, _, _, _, _ => "bad-op"
+  match ws with
+  | [l, stops, uo, ro, fx, est, nt, nta, t, ta, tv] => go l stops uo ro fx est nt nta t ta tv "-"
+  | [l, stops, uo, ro, fx, est, nt, nta, t, ta, tv, oo] => go l stops uo ro fx est nt nta t ta tv oo
   | _ => "bad-op"
 
 def step (st : State) (line : String) : State × String :=
